@@ -38,7 +38,8 @@ def run_one(patch, prop, runs, extra=()):
         out = p.stdout + p.stderr
         if p.returncode == 1 and 'VIOLATION property=%s' % prop in out:
             mons = sorted(set(re.findall(r'monitor=(\S+)', out)))
-            return 'caught', ','.join(mons)
+            m = re.search(r'the first at run index (\S+)', out)
+            return 'caught', ','.join(mons) + (' @%s' % m.group(1) if m else '')
         if p.returncode == 0:
             return 'missed', out[-400:]
         return 'harness-error(%d)' % p.returncode, out[-1500:]
